@@ -40,4 +40,101 @@ theorem mag_eq_abs [IsStrictOrderedRing K] (a : K) : ScalarExt.mag a = |a| := by
   · rename_i h; exact (abs_of_nonneg (not_lt.mp h)).symm
 end
 
+/-! ### the laws the class-(E) development actually uses
+
+The proofs about the dense direct solvers never look at the order of `K` itself: they use that
+`divM` is the field division guarded by an exact zero test (`DivLaw`), and — for partial pivoting —
+that the comparison `lt (mag a) (mag b)` the code performs is the comparison of a "size" taken in
+some linear order whose least value is attained exactly at `0` (`PivotLaws`).  A linearly ordered
+field with `Alg.scalarExt` is one instance (size `|·|`); the model's complex numbers `Cx ℝ` with
+`Cx.instScalarExt` are another (size = modulus), see `Ohsl/Lemmas/CxField.lean`. -/
+
+/-- `divM` is the field division, failing (class `arith`) exactly on a zero divisor -/
+class DivLaw (K : Type) [Field K] [ScalarExt K] : Prop where
+  divM_zero : ∀ a : K, ScalarExt.divM a 0 = .error .arith
+  divM_ne : ∀ a b : K, b ≠ 0 → ScalarExt.divM a b = .ok (a / b)
+
+/-- the magnitude comparison used by partial pivoting is the comparison of a `size` in a linear
+    order `S`; the search starts from `0 = mag 0`, whose size is least and is attained only at `0` -/
+class PivotLaws (K : Type) [Field K] [ScalarExt K] extends DivLaw K where
+  /-- the linearly ordered type the sizes live in -/
+  S : Type
+  [ord : LinearOrder S]
+  /-- the size the pivot search maximises -/
+  size : K → S
+  lt_mag : ∀ a b : K,
+    ScalarExt.lt (ScalarExt.mag a) (ScalarExt.mag b) = decide (size a < size b)
+  mag_zero : ScalarExt.mag (0 : K) = 0
+  size_zero_le : ∀ a : K, size 0 ≤ size a
+  eq_zero_of_size : ∀ a : K, size a = size 0 → a = 0
+
+attribute [instance_reducible, instance] PivotLaws.ord
+
+section Laws
+variable {K : Type} [Field K] [ScalarExt K]
+
+/-- the class form of `divM_eq` (for whatever decidability instance the context provides) -/
+theorem divM_law [DivLaw K] (a b : K) [Decidable (b = 0)] :
+    divM a b = if b = 0 then .error .arith else .ok (a / b) := by
+  split
+  · rename_i h; rw [h]; exact DivLaw.divM_zero a
+  · rename_i h; exact DivLaw.divM_ne a b h
+
+theorem divM_law_ne [DivLaw K] {a b : K} (h : b ≠ 0) : divM a b = .ok (a / b) :=
+  DivLaw.divM_ne a b h
+
+theorem divM_law_zero [DivLaw K] (a : K) : divM a (0 : K) = .error .arith :=
+  DivLaw.divM_zero a
+
+variable [PivotLaws K]
+
+/-- the comparison against the initial maximum `0` -/
+theorem lt_zero_mag (b : K) :
+    ScalarExt.lt (0 : K) (ScalarExt.mag b) = decide (PivotLaws.size (0 : K) < PivotLaws.size b) := by
+  have := PivotLaws.lt_mag (0 : K) b
+  rwa [PivotLaws.mag_zero] at this
+
+theorem size_eq_zero_iff (a : K) : PivotLaws.size a = PivotLaws.size (0 : K) ↔ a = 0 :=
+  ⟨PivotLaws.eq_zero_of_size a, fun h => by rw [h]⟩
+
+theorem size_le_zero_iff (a : K) : PivotLaws.size a ≤ PivotLaws.size (0 : K) ↔ a = 0 :=
+  ⟨fun h => PivotLaws.eq_zero_of_size a (le_antisymm h (PivotLaws.size_zero_le a)),
+   fun h => by rw [h]⟩
+
+/-- a magnitude is `0` exactly for the scalar `0` -/
+theorem mag_eq_zero_iff (a : K) : ScalarExt.mag a = 0 ↔ a = 0 := by
+  constructor
+  · intro h
+    have h1 := PivotLaws.lt_mag a a
+    have h2 := PivotLaws.lt_mag (0 : K) a
+    have e : ScalarExt.mag (0 : K) = ScalarExt.mag a := by rw [PivotLaws.mag_zero, h]
+    rw [e, h1] at h2
+    have h3 : ¬ PivotLaws.size (0 : K) < PivotLaws.size a := by
+      intro hlt
+      have : decide (PivotLaws.size a < PivotLaws.size a) = true := by
+        rw [h2]; exact decide_eq_true hlt
+      exact lt_irrefl _ (of_decide_eq_true this)
+    exact (size_le_zero_iff a).1 (not_lt.1 h3)
+  · intro h; rw [h]; exact PivotLaws.mag_zero
+
+end Laws
+
+/-! ### the ordered-field interpretation satisfies the laws -/
+section
+variable {K : Type} [Field K] [LinearOrder K]
+attribute [local instance] scalarExt
+
+instance divLaw : DivLaw K where
+  divM_zero a := by simp
+  divM_ne a b h := by simp [h]
+
+instance pivotLaws [IsStrictOrderedRing K] : PivotLaws K where
+  S := K
+  size a := |a|
+  lt_mag a b := by rw [mag_eq_abs, mag_eq_abs]; rfl
+  mag_zero := by simp
+  size_zero_le a := by simp
+  eq_zero_of_size a h := by simpa using h
+end
+
 end Ohsl.Alg
